@@ -182,7 +182,9 @@ func (al *agentListener) serv(c *conn2) {
 			ac := &agentConnection{
 				Laddr: v.Laddr,
 				Raddr: v.Raddr,
-				in:    make(chan []byte),
+				// one pending wake-up is kept, so that data received while the
+				// reader is between its buffer check and its select is not missed
+				in:    make(chan []byte, 1),
 				out:   out,
 			}
 
